@@ -170,6 +170,18 @@ def run(ctx, prop):
             runs.append(r1)
             runfam[rid] = (runfam[r0['id']][0], 'extras')
 
+    if ctx.replay:
+        det = json.load(open(ctx.replay))['detail']
+        r0 = det['run']
+        fam0 = [f for f in small + big if f['name'] == r0['family']][0]
+        if fam0 not in fams:
+            fams.append(fam0)
+        sched0 = det.get('schedule') or r0['schedule']
+        keep = dict(r0, id=1, schedule=sched0, finish='rr')
+        del runs[:]
+        runfam.clear()
+        runs.append(keep)
+        runfam[1] = (fam0, 'replay')
     ctx.log('runs to replay:', len(runs))
     recs, rc, out = ctx.run_harness('./internal/upload', 'TestVerifC08', inp={'runs': runs}, timeout=3000)
     results = {r['run']: r for r in recs if r.get('kind') == 'result'}
